@@ -76,6 +76,9 @@ class C06(AstKindProp):
         opts = {"emit_default_doc": r.random() < 0.6}
         if kind == "function":
             opts.update({"inline_types": r.random() < 0.6, "emit_as_kwonlyargs": r.random() < 0.5, "function_type": r.choice(["static", "self", "cls"])})
+            if r.random() < 0.3:
+                # name and kind are not passed: the emitter takes them from the description
+                opts.update({"ir_type": opts["function_type"], "function_type": None, "name": None})
         run.dist["kind"][kind] += 1
         return {"ir": irutil.ir_to_json(irj), "kind": kind, "opts": opts}
 
@@ -85,6 +88,8 @@ class C06(AstKindProp):
     # ---- execute the artefact ------------------------------------------------------------------
     def artefact(self, c):
         ir = self.py_ir(c["ir"])
+        if c["opts"].get("ir_type"):
+            ir["type"], ir["name"] = c["opts"]["ir_type"], "call_peril"
         return ir, kinds.emit(c["kind"], ir, c["opts"])
 
     def runtime_view(self, c, art):
@@ -104,6 +109,8 @@ class C06(AstKindProp):
             tree = ast.parse(src).body[0]
             ann = {a.arg: (ast.unparse(a.annotation) if a.annotation else None) for a in tree.args.args + tree.args.kwonlyargs}
             params, var_kw = [], False
+            first = next(iter(sig.parameters), None)
+            receiver = first if first in ("self", "cls") else None
             for p in sig.parameters.values():
                 if p.name in ("self", "cls"):
                     continue
@@ -112,7 +119,7 @@ class C06(AstKindProp):
                     continue
                 params.append({"name": p.name, "kwonly": p.kind is inspect.Parameter.KEYWORD_ONLY, "annotation": ann.get(p.name),
                                "default": "<required>" if p.default is inspect.Parameter.empty else rt(p.default)})  # fmt: skip
-            return {"params": params, "var_kw": var_kw, "return": ast.unparse(tree.returns) if tree.returns else None}
+            return {"params": params, "var_kw": var_kw, "return": ast.unparse(tree.returns) if tree.returns else None, "receiver": receiver}
         parser = argparse.ArgumentParser()
         res = ns["set_cli_args"](parser)
         out = []
@@ -125,7 +132,8 @@ class C06(AstKindProp):
         return {"options": out, "description": parser.description, "returned_parser": res is parser or (isinstance(res, tuple) and res[0] is parser)}
 
     def corr(self, c, run):
-        op = {"op": "view", "kind": c["kind"], "ir": c["ir"], "inline": bool(c["opts"].get("inline_types")), "kwonly": bool(c["opts"].get("emit_as_kwonlyargs"))}
+        op = {"op": "view", "kind": c["kind"], "ir": c["ir"], "inline": bool(c["opts"].get("inline_types")), "kwonly": bool(c["opts"].get("emit_as_kwonlyargs")),
+              "function_type": c["opts"].get("function_type"), "ir_type": c["opts"].get("ir_type")}  # fmt: skip
         try:
             _, art = self.artefact(c)
             v = self.runtime_view(c, art)
@@ -145,7 +153,7 @@ class C06(AstKindProp):
             return {"ok": [{"name": a["name"], "annotation": a["annotation"], "value": canon_val(a["value"])} for a in o]}
         if op["kind"] == "argparse":
             return {"ok": [dict(a, default=None if a["default"] is None else canon_val(a["default"])) for a in o]}
-        return {"ok": {"params": [dict(p, default=canon_val(p["default"])) for p in o["params"]], "var_kw": o["var_kw"], "return": o["return"]}}
+        return {"ok": {"params": [dict(p, default=canon_val(p["default"])) for p in o["params"]], "var_kw": o["var_kw"], "return": o["return"], "receiver": o.get("receiver")}}
 
     # ---- the property on the real code ----------------------------------------------------------
     def oracle(self, c, run):
@@ -180,6 +188,16 @@ class C06(AstKindProp):
                         fails.append({"what": "black re-indents the docstring constant", "kind": c["kind"]})
                     else:
                         fails.append({"what": "tree changes through emit.file", "skip_black": skip_black, "kind": c["kind"]})
+            # (2b) emitted OVER an existing file that holds a near-identical program (a string constant differing in
+            # white space only; a constant of equal value but another type), the file must end up holding the artefact
+            for label, variant in _near_variants(art):
+                fn = os.path.join(d, "over_%s.py" % label)
+                E.file(variant, fn, mode="wt", skip_black=True)
+                E.file(copy.deepcopy(art), fn, mode="wt", skip_black=True)
+                with open(fn) as fh:
+                    t3 = ast.parse(fh.read())
+                if ast.dump(t3) != ast.dump(tree):
+                    fails.append({"what": "emitted over a file holding a near-identical program, the file does not hold the artefact", "variant": label, "kind": c["kind"]})
         except Exception as e:
             fails.append({"what": "emit.file raised", "exc": exc_kind(e), "kind": c["kind"]})
         finally:
@@ -221,6 +239,9 @@ class C06(AstKindProp):
         got_names = [p["name"] for p in view["params"]]
         if got_names != want_names:
             return [{"what": "signature does not have exactly the described parameters in order", "want": want_names, "got": got_names}]
+        want_recv = {"static": None, "self": "self", "cls": "cls"}[o.get("ir_type") or o.get("function_type") or "static"]
+        if view.get("receiver") != want_recv:
+            fails.append({"what": "first parameter does not match the function kind (plain / instance method / class method)", "want": want_recv, "got": view.get("receiver")})
         if view["var_kw"] != any(n.endswith("kwargs") for n, _ in self._entries(ir)):
             fails.append({"what": "**kwargs presence differs", "got": view["var_kw"]})
         for (n, p), s in zip(ents, view["params"]):
@@ -288,6 +309,29 @@ class C06(AstKindProp):
 
             return C02.classify_kind(self, c, fl)
         return None
+
+
+def _near_variants(art):
+    """[(label, tree)]: copies of the artefact with ONE constant changed - white space inside a string; a bool/int/float
+    replaced by an equal value of another type"""
+    out = []
+    v = copy.deepcopy(art)
+    for n in ast.walk(v):
+        if isinstance(n, ast.Constant) and isinstance(n.value, str) and " " in n.value.strip():
+            i = n.value.strip().index(" ") + (len(n.value) - len(n.value.lstrip()))
+            n.value = n.value[:i] + " " + n.value[i:]
+            out.append(("whitespace-in-string", v))
+            break
+    v = copy.deepcopy(art)
+    for n in ast.walk(v):
+        if isinstance(n, ast.Constant) and isinstance(n.value, (bool, int, float)):
+            x = n.value
+            n.value = int(x) if isinstance(x, bool) else (float(x) if isinstance(x, int) else (int(x) if x == int(x) else None))
+            if n.value is not None:
+                out.append(("equal-value-other-type", v))
+                break
+            n.value = x
+    return out
 
 
 PROP = C06()
